@@ -737,7 +737,7 @@ func (e *Engine) invoke(st *State, fv FuncVal, args []Value, site ssa.Instructio
 	}
 	fn := fv.Fn
 	name := fn.String()
-	if fn.Pkg != nil && fn.Pkg.Pkg.Path() == e.vpPkg {
+	if fn.Pkg != nil && fn.Pkg.Pkg.Path() == e.vpPkg && fn.Signature.Recv() == nil && !vpBodies[fn.Name()] && fn.Parent() == nil {
 		return e.vpCall(st, fn.Name(), args, site, ret)
 	}
 	if fn.Name() == "init" && fn.Synthetic != "" && fn.Pkg != nil && !e.initAllowed(fn.Pkg.Pkg.Path()) {
